@@ -11,7 +11,7 @@ package main
 //                    the backend now holds an expired node for k, exactly as after the expiry of a short-ttl answer
 //   h,<k>,<r>,<kind> client query for key k through handleServerReq; if the upstream is asked it gives response
 //                    number r of kind p (NOERROR, ttl 3600) | n (NXDOMAIN, SOA ttl 600 → 30 s) | f (REFUSED → 5 s) |
-//                    t (NOERROR, ttl 1) | m (NOERROR, ttl 2^32-1)
+//                    t (NOERROR, ttl 1) | q (NOERROR, ttl 5) | m (NOERROR, ttl 2^32-1)
 //   s,<k>,<r>,<kind> cacheCtl.Store of such a response (what a prefetch does)
 //   g,<k>            cacheCtl.Get
 //   w,<n>            n more cache writes (fresh long-lived keys, each checked later by v), then the backend's
@@ -112,6 +112,8 @@ func c07conv(r int, name []byte, kind string) *dnsmsg.Msg {
 	switch kind {
 	case "p":
 		m.Answers = append(m.Answers, tag(3600))
+	case "q":
+		m.Answers = append(m.Answers, tag(5))
 	case "t":
 		m.Answers = append(m.Answers, tag(1))
 	case "m":
@@ -342,6 +344,11 @@ func c07convGen(r *rand.Rand, thorough bool, emit func(c, cat string)) {
 		// a negative answer never displaces a live entry, and is stored when there is none
 		mk("std", p, "negative-vs-live", h(0, "p"), s(0, "n"), h(0, "p"), g(0), s(1, "n"), s(1, "n"), g(1), s(1, "p"), g(1))
 	}
+	// the converse near the end of a short lifetime: answers with ttl 5 are repeated 3.65 s later — 1.35 s of the
+	// lifetime remain (the backend's clock has a resolution of one second: the real lifetime is in (4, 5] s)
+	// (three keys a third of a second apart: whatever the phase of the backend's clock, each is 3.65 s old at its repeat)
+	mk("std", 0, "repeat-near-end-of-life", h(10, "q"), "z,330", h(11, "q"), "z,330", h(12, "q"), "z,2990",
+		h(10, "p"), "z,330", h(11, "p"), "z,330", h(12, "p"))
 	// lookups concurrent with replacing stores
 	stores := 4000
 	if thorough {
